@@ -491,6 +491,61 @@ def rule_fresh(ctx):
         raise AnalysisError('simple_cycles: component loop not recognised')
     outer = outer[0]
     inner = [n for n in outer.body if isinstance(n, ast.While)]
+    if not inner:
+        # the search of one start node may live in a generator of its own:
+        # `yield from _circuits_from(graph, startnode)`
+        dele = [n.value.value for n in outer.body if isinstance(
+            n, ast.Expr) and isinstance(n.value, ast.YieldFrom) and
+            isinstance(n.value.value, ast.Call)]
+        if len(dele) == 1:
+            r_ = ctx.cg.resolve_name_expr(f, dele[0].func) if isinstance(
+                dele[0].func, (ast.Name, ast.Attribute)) else None
+            if r_ and r_[0] == 'func' and r_[1].module is f.module:
+                h = r_[1]
+                hin = [n for n in h.node.body if isinstance(n, ast.While)]
+                if len(hin) == 1 and not any(isinstance(
+                        a, ast.Starred) for a in dele[0].args) and \
+                        not dele[0].keywords:
+                    bound = dict(zip(h.params, dele[0].args))
+                    for name, where in sorted(_mutated_names(
+                            ctx, h, hin[0]).items()):
+                        rr.instances += 1
+                        if name not in h.all_params:
+                            own = [n for n in ast.walk(h.node) if isinstance(
+                                n, ast.Name) and n.id == name and isinstance(
+                                n.ctx, ast.Store)]
+                            if own:
+                                rr.ok('`%s` (mutated by the search at line '
+                                      '%d) is created by %s, once per start '
+                                      'node' % (name, where.lineno, h.name),
+                                      '%s:%d' % (CYCLE, own[0].lineno))
+                                continue
+                            raise AnalysisError(
+                                'simple_cycles: origin of the search state '
+                                '`%s` in %s not recognised' % (name, h.name))
+                        a = bound.get(name)
+                        made = isinstance(a, ast.Name) and any(
+                            isinstance(n, ast.Name) and n.id == a.id and
+                            isinstance(n.ctx, ast.Store)
+                            for n in ast.walk(outer))
+                        if made:
+                            rr.ok('`%s` (mutated by the search in %s) is '
+                                  'created in the per-component loop and '
+                                  'handed over' % (name, h.name),
+                                  '%s:%d' % (CYCLE, outer.lineno))
+                        else:
+                            rr.fail(
+                                key_of(f, 'search state carried across start '
+                                          'nodes'),
+                                'simple_cycles hands `%s` to %s, which mutates '
+                                'it during the search (line %d), but creates '
+                                'it outside the per-component loop: blocking '
+                                'information recorded for one start node is '
+                                'still in force for the next' % (
+                                    norm_src(a) if a is not None else name,
+                                    h.name, where.lineno), file=CYCLE,
+                                function=f.qualname, line=where.lineno)
+                    return rr
     if len(inner) != 1:
         raise AnalysisError('simple_cycles: search loop not recognised')
     inner = inner[0]
